@@ -108,3 +108,11 @@ package treasure
 //@   ensures[never_fails] err == nil
 //@   ensures[whole_elements_afterwards] t.treasure.Content != nil && t.treasure.Content.Uint32Slice != nil ==> len(deref(t.treasure.Content.Uint32Slice)) % 4 == 0 && len(deref(t.treasure.Content.Uint32Slice)) <= old(len(deref(t.treasure.Content.Uint32Slice)))
 //@   ensures[changed_flag_iff_an_element_was_removed] old(t.treasure.Content != nil && t.treasure.Content.Uint32Slice != nil) ==> (t.contentChanged <==> (old(t.contentChanged) || len(deref(t.treasure.Content.Uint32Slice)) < old(len(deref(t.treasure.Content.Uint32Slice)))))
+
+// ---------------------------------------------------------------------------------------
+// Property C10 (no unsynchronised access to shared memory), record side. A record's model and its change
+// flags are read by lock-free readers under t.mu (RLock); EVERY method of the type is checked (census) to
+// touch them only with t.mu held in the right mode.
+//@ type treasure
+//@   guarded_by mu: treasure, contentChanged, expirationTimeChanged, createdAtChanged, createdByChanged, deletedAtChanged, deletedByChanged, modifiedAtChanged, modifiedByChanged only C10
+//@ census treasure property C10
